@@ -493,6 +493,9 @@ func (a *Authenticator) ClientHandshake(ctx context.Context) (*SecurityNegotiati
 				Reason:    "pre-registered session not found in cache",
 			}
 		}
+		if why := a.clientResumeRefusal(entry); why != "" {
+			return nil, &SessionResumptionError{SessionID: a.config.SessionID, Reason: "pre-registered session cannot be used: " + why}
+		}
 		slog.Info(fmt.Sprintf("🔐 CLIENT: Using pre-registered session %s (explicit SessionID)",
 			redactSessionID(entry.ID())), "destination", "cedar")
 		return a.resumeSession(ctx, entry, cache)
@@ -507,7 +510,10 @@ func (a *Authenticator) ClientHandshake(ctx context.Context) (*SecurityNegotiati
 
 	if serverAddr != "" && a.config.Command >= 0 {
 		cmdStr := fmt.Sprintf("%d", a.config.Command)
-		if entry, ok := cache.LookupByCommand(a.config.SecurityTag, serverAddr, cmdStr); ok {
+		// A cached session that cannot meet the current policy (no key, or never
+		// authenticated while authentication is required) is not ridden: a full
+		// handshake is performed instead.
+		if entry, ok := cache.LookupByCommand(a.config.SecurityTag, serverAddr, cmdStr); ok && a.clientResumeRefusal(entry) == "" {
 			slog.Info(fmt.Sprintf("🔐 CLIENT: Found cached session %s for %s, attempting to resume...",
 				redactSessionID(entry.ID()), serverAddr), "destination", "cedar")
 
@@ -526,6 +532,18 @@ func (a *Authenticator) ClientHandshake(ctx context.Context) (*SecurityNegotiati
 
 	// No cached session, perform full authentication
 	return a.performFullAuthentication(ctx, cache)
+}
+
+// clientResumeRefusal explains why the client will not ride a cached session
+// under its current policy, or returns "" if it may.
+func (a *Authenticator) clientResumeRefusal(entry *SessionEntry) string {
+	if !sessionKeyUsable(entry) {
+		return "session carries no usable key"
+	}
+	if a.config.Authentication == SecurityRequired && !sessionAuthenticated(entry) {
+		return "session is not authenticated but authentication is required"
+	}
+	return ""
 }
 
 // performFullAuthentication performs a full authentication handshake (original ClientHandshake logic)
@@ -1425,6 +1443,9 @@ func (a *Authenticator) storeClientSession(negotiation *SecurityNegotiation, dur
 	}
 	_ = policy.Set("AuthMethods", string(negotiation.NegotiatedAuth))
 	_ = policy.Set("CryptoMethods", string(negotiation.NegotiatedCrypto))
+	// Record the actual outcome, as the server side does, so a later handshake
+	// under a stricter policy can tell whether this session was authenticated.
+	_ = policy.Set("Authenticated", negotiation.Authentication)
 	// Store User information for session resumption
 	if negotiation.User != "" {
 		_ = policy.Set("User", negotiation.User)
